@@ -61,6 +61,9 @@ pub enum Edit {
     NearNamePair { line: usize, how: String },
     /// generated project: the block whose header is at `line` appears twice (repeated write)
     BlockDuplicated { line: usize },
+    /// generated project: the `tok`-th number of the line gets more significant digits (x 1.01731,
+    /// six decimals): values that do not sit on the two-decimal grid the shipped files use
+    NumFine { line: usize, tok: usize },
     /// generated project: the definition at `line` gets a twin (new name, its `attr`-th plain
     /// decimal attribute multiplied by 1.5) and the first reference to the original now names the
     /// twin: two used definitions that differ in exactly one value
@@ -108,6 +111,7 @@ impl Edit {
             Edit::ZerosOn { .. } => "proj.zeros_on",
             Edit::BlockPastedElsewhere { .. } => "proj.block_pasted_elsewhere",
             Edit::TwinUsed { .. } => "proj.twin_definition_used",
+            Edit::NumFine { .. } => "proj.number_with_more_digits",
             Edit::DefRenamed { .. } => "disk.def_renamed",
             Edit::DefRemoved { .. } => "disk.def_removed",
             Edit::RefRenamed { .. } => "disk.ref_renamed",
@@ -139,6 +143,7 @@ impl Edit {
             | Edit::ZerosOn { line, .. }
             | Edit::BlockPastedElsewhere { line }
             | Edit::TwinUsed { line, .. }
+            | Edit::NumFine { line, .. }
             | Edit::DefRenamed { line }
             | Edit::DefRemoved { line }
             | Edit::RefRenamed { line, .. } => Some(*line),
@@ -705,6 +710,19 @@ pub fn apply(text: &str, e: &Edit) -> Option<String> {
             let mut v: Vec<&str> = lines[..=end].to_vec();
             v.extend_from_slice(&lines[*line..=end]);
             v.extend_from_slice(&lines[end + 1..]);
+            Some(join(&v))
+        }
+        Edit::NumFine { line, tok } => {
+            let l = get(*line)?;
+            let sp = numeric_spans(l);
+            let (s0, e0) = *sp.get(*tok)?;
+            let x: f64 = l[s0..e0].parse().ok()?;
+            if !x.is_finite() || x == 0.0 || x.abs() > 1.0e6 || !l[s0..e0].contains('.') {
+                return None;
+            }
+            let newl = format!("{}{:.6}{}", &l[..s0], x * 1.01731, &l[e0..]);
+            let mut v = lines.clone();
+            v[*line] = &newl;
             Some(join(&v))
         }
         Edit::TwinUsed { line, attr } => {
